@@ -133,6 +133,7 @@ structure SegSt where
   endDTS : Nat
   flushed : List PartSt
   cur : Option PartSt
+  trigger : Option Nat := none   -- track whose next sample caused the segment switch that created it
 deriving Repr, DecidableEq
 
 /-- a segment file -/
@@ -142,6 +143,7 @@ structure FileSt where
   startNTP : Int
   hdrMs : Nat          -- mvhd.DurationV0 (0 while the segment is open)
   parts : List PartSt
+  trigger : Option Nat := none
 deriving Repr, DecidableEq
 
 structure St where
@@ -152,9 +154,13 @@ structure St where
   nextNumber : Nat := 0
   files : List FileSt := []
   closed : Bool := false
+  /-- (segment number, track): a video track's pending sample was discarded as "received too late" while the
+      track had no sample in that segment yet -/
+  drops : List (Nat × Nat) := []
 deriving Repr
 
-def init (c : Cfg) : St := { pend := c.tracks.map (fun _ => none), startI := c.tracks.map (fun _ => none) }
+def init (c : Cfg) : St :=
+  { pend := c.tracks.map (fun _ => none), startI := c.tracks.map (fun _ => none) }
 
 def addToPart (p : PartSt) (w : WS) (base : Nat) : PartSt :=
   let tracks :=
@@ -182,11 +188,11 @@ def segParts (sg : SegSt) : List PartSt :=
 /-- formatFMP4Segment.close: flush the current part, write the duration; a file exists iff a part was written -/
 def segClose (sg : SegSt) : Option FileSt :=
   if (segParts sg).isEmpty then none
-  else some ⟨sg.number, sg.startDTS, sg.startNTP, ((sg.endDTS - sg.startDTS) / 1000000) % u32, segParts sg⟩
+  else some ⟨sg.number, sg.startDTS, sg.startNTP, ((sg.endDTS - sg.startDTS) / 1000000) % u32, segParts sg, sg.trigger⟩
 
 /-- what is on disk for an open segment (crash at a write boundary): the flushed parts, header duration 0 -/
 def segCrash (sg : SegSt) : Option FileSt :=
-  if sg.flushed.isEmpty then none else some ⟨sg.number, sg.startDTS, sg.startNTP, 0, sg.flushed⟩
+  if sg.flushed.isEmpty then none else some ⟨sg.number, sg.startDTS, sg.startNTP, 0, sg.flushed, sg.trigger⟩
 
 def rateOf (c : Cfg) (t : Nat) : Nat := (c.tracks.getD t ⟨false, 1⟩).rate
 def isVideo (c : Cfg) (t : Nat) : Bool := (c.tracks.getD t ⟨false, 1⟩).video
@@ -206,8 +212,13 @@ def closeInst (s : St) : St :=
   | none => { s with closed := true }
   | some sg => { s with closed := true, seg := none, files := s.files ++ (segClose sg).toList }
 
-def freshSeg (number dts : Nat) (ntp : Int) : SegSt :=
-  { number := number, startDTS := dts, startNTP := ntp, endDTS := dts, flushed := [], cur := none }
+def freshSeg (number dts : Nat) (ntp : Int) (trigger : Option Nat := none) : SegSt :=
+  { number := number, startDTS := dts, startNTP := ntp, endDTS := dts, flushed := [], cur := none, trigger := trigger }
+
+/-- all samples written into the segment so far, in write order -/
+def segSamples (sg : SegSt) : List WS := (segParts sg).flatMap (·.all)
+
+def segHas (sg : SegSt) (tid : Nat) : Bool := (segSamples sg).any (fun w => w.track == tid)
 
 /-- `if t.f.currentSegment == nil { create }` -/
 def curSeg (s : St) (dts : Nat) (ntp : Int) : SegSt :=
@@ -264,13 +275,35 @@ def write (c : Cfg) (s : St) (x : In) : St :=
     if driftErr s x.track w.dts smp.ntp then closeInst s1 else
     let sg := curSeg s w.dts smp.ntp
     let nn := curNext s
-    if lateP s w.dts then { s1 with seg := some sg, nextNumber := nn } else
+    if lateP s w.dts then
+      { s1 with seg := some sg, nextNumber := nn,
+                drops := if isVideo c x.track && !segHas sg x.track then s.drops ++ [(sg.number, x.track)] else s.drops }
+    else
     let sg2 := segWrite c sg w (rateOf c x.track)
     if switchCond c hasVideo x nx sg2 then
-      { s1 with seg := some (freshSeg nn (nextStart c s1.pend).2 (nextStart c s1.pend).1),
+      { s1 with seg := some (freshSeg nn (nextStart c s1.pend).2 (nextStart c s1.pend).1 (some x.track)),
                 nextNumber := nn + 1,
                 files := s.files ++ (segClose sg2).toList }
     else { s1 with seg := some sg2, nextNumber := nn }
+
+/-- the OnData callback of a video format (AV1, VP9, H264, H265, MPEG-4, MPEG-1 video in format_fmp4.go): units before
+the first random-access unit are dropped (`firstReceived` / `dtsExtractor == nil`).  The flag becomes true exactly when
+`track.write` is called for the first time, which is also when `track.nextSample` becomes non-nil for good — so
+"gate closed" is `pend[track] = none`. -/
+def gwrite (c : Cfg) (s : St) (x : In) : St :=
+  if isVideo c x.track && (s.pend.getD x.track none).isNone && x.nonSync then s else write c s x
+
+def grun (c : Cfg) (s : St) : List In → St
+  | [] => s
+  | x :: r => grun c (gwrite c s x) r
+
+/-- first sample of track `tid` in the file -/
+def firstOf (tid : Nat) (parts : List PartSt) : Option WS := (parts.flatMap (·.all)).find? (fun w => w.track == tid)
+
+/-- "begins with a random-access sample": the first sample of every video track of the file is one -/
+def fileSync (c : Cfg) (f : FileSt) : Bool :=
+  (List.range c.tracks.length).all fun tid =>
+    !isVideo c tid || (match firstOf tid f.parts with | some w => !w.nonSync | none => true)
 
 def run (c : Cfg) (s : St) : List In → St
   | [] => s
@@ -346,6 +379,13 @@ def tTrun : Bytes := asc ['t', 'r', 'u', 'n']
 
 def bitSet (v k : Nat) : Bool := (v / k) % 2 == 1
 
+/-- sample id carried in the payload: 4 bytes big endian; in gated mode (AV1) after the optional sequence-header OBU
+(0x0a, size, …) and the frame OBU header (0x32, size) -/
+def sampleId (f : Bytes) (off : Nat) : Nat :=
+  let off := if byteAt f off == 10 then off + 2 + byteAt f (off + 1) else off
+  let off := if byteAt f off == 50 then off + 2 else off
+  rd32 f off
+
 /-- entries of a trun (flags as written by mediacommon: data-offset, duration, size, optional flags / cto) -/
 def trunEntries (f : Bytes) (moofOff pos : Nat) : Option (List SInfo) :=
   let fl := byteAt f (pos + 9) * 65536 + byteAt f (pos + 10) * 256 + byteAt f (pos + 11)
@@ -359,7 +399,7 @@ def trunEntries (f : Bytes) (moofOff pos : Nat) : Option (List SInfo) :=
       let dur := rd32 f e
       let sz := rd32 f (e + 4)
       let ns := bitSet fl 1024 && bitSet (rd32 f (e + 8)) 65536
-      (acc.1 ++ [⟨rd32 f acc.2, dur, sz, ns, acc.2⟩], acc.2 + sz)) ([], moofOff + dataOff)
+      (acc.1 ++ [⟨sampleId f acc.2, dur, sz, ns, acc.2⟩], acc.2 + sz)) ([], moofOff + dataOff)
   some r.1
 
 def parseTrafs (f : Bytes) (moofOff : Nat) : Nat → Nat → Nat → Option (List TInfo)
